@@ -146,8 +146,8 @@ fn reachability<const W: usize, const N: usize>(skeleton: &[(u8, usize)]) {
     let mut got = [0u8; 4];
     let mut i = 0;
     while i < N {
-        let class: u8 = vany();
-        assume(class < 2);
+        // concrete priority class (alternating), symbolic stealable flag - see queue_script
+        let class: u8 = (i % 2) as u8;
         let st: bool = vany();
         let r = ex.submit(mk(i as u8, class, st));
         accepted[i] = r.is_ok();
@@ -200,7 +200,7 @@ macro_rules! c18_reach {
             unwind: $unwind,
             stubs: [alloc::fmt::format => crate::common::stubs::fmt_format],
             targets: "concurrency::work_stealing::WorkStealingExecutor::{submit, find_task, total_queued, is_idle}, WorkStealingQueue::{push_local, pop_local, steal, balance} (executor built without tokio workers through verif_access::new_threadless)",
-            bounds: "W workers (1st instance arg), queue capacity 4; N tasks (2nd arg) with symbolic priority class and stealable flag submitted through submit(); then the concrete worker-step skeleton of the instance ((0,w) = worker w balance, (1,w) = worker w find_task); then every worker calls find_task for N rounds",
+            bounds: "W workers (1st instance arg), queue capacity 4; N tasks (2nd arg) with alternating priority class 0/1 and symbolic stealable flag submitted through submit(); then the concrete worker-step skeleton of the instance ((0,w) = worker w balance, (1,w) = worker w find_task); then every worker calls find_task for N rounds",
             oracle: "each accepted task is obtained exactly once; afterwards total_queued() == 0 and is_idle()",
             body: { reachability::<$w, $n>(&$skel) }
         }
@@ -222,9 +222,10 @@ fn queue_script(script: &[u8], cap: usize) {
     let mut step = 0;
     while step < script.len() {
         match script[step] {
-            0 => {
-                let class: u8 = vany();
-                assume(class < 2);
+            0 | 4 => {
+                // priority class is concrete per script (a symbolic insert position in the VecDeque
+                // costs tens of millions of clauses); the stealable flag stays symbolic
+                let class: u8 = if script[step] == 4 { 1 } else { 0 };
                 let st: bool = vany();
                 let before = q.len();
                 let r = q.push_local(mk(next_id, class, st));
@@ -272,16 +273,16 @@ macro_rules! c18_qscript {
             unwind: $unwind,
             stubs: [alloc::fmt::format => crate::common::stubs::fmt_format],
             targets: "concurrency::work_stealing::WorkStealingQueue::{push_local, pop_local, steal, balance, len, is_empty}",
-            bounds: "one queue of the capacity given by the instance; the concrete operation script of the instance (0 push_local of a new task, 1 pop_local, 2 steal, 3 balance); every pushed task has a symbolic priority class 0..1 and stealable flag; each queue operation is atomic (holds its mutexes for its whole body)",
+            bounds: "one queue of the capacity given by the instance; the concrete operation script of the instance (0 / 4 push_local of a new task of priority class 0 / 1, 1 pop_local, 2 steal, 3 balance); every pushed task has a symbolic stealable flag; each queue operation is atomic (holds its mutexes for its whole body)",
             oracle: "every accepted task is obtained exactly once over the script plus a final drain; len() equals the number of tasks that can still be taken out; a push is refused only when the local queue is full",
             body: { queue_script(&$script, $cap) }
         }
     };
 }
-c18_qscript!(c18_q_push2_steal_pop, quick, 6, 2, [0u8, 0, 2, 1]);
-c18_qscript!(c18_q_push2_bal_steal, quick, 6, 2, [0u8, 0, 3, 2]);
-c18_qscript!(c18_q_push3_full_bal, quick, 6, 2, [0u8, 0, 0, 3, 1]);
-c18_qscript!(c18_q_push3_bal_steal2, thorough, 7, 3, [0u8, 0, 0, 3, 2, 2, 1]);
+c18_qscript!(c18_q_push2_steal_pop, quick, 6, 2, [0u8, 4, 2, 1]);
+c18_qscript!(c18_q_push2_bal_steal, quick, 6, 2, [4u8, 0, 3, 2]);
+c18_qscript!(c18_q_push3_full_bal, quick, 6, 2, [0u8, 0, 4, 3, 1]);
+c18_qscript!(c18_q_push3_bal_steal2, thorough, 7, 3, [0u8, 4, 0, 3, 2, 2, 1]);
 
 // ---- probes (cost calibration)
 zv_harness! {
